@@ -25,6 +25,10 @@ type Case struct {
 	Envs            int  // number of environments alive (1-2)
 	Bare            bool // reconnect: reconciliation answers as the master generates them (no executor id, labels, uuid)
 	RefuseFirstKill bool // restart: the master answers the first KILL call for every surviving task with HTTP 503
+	// restart: the master is busy - its reconciliation answers come 1.5 s after the call and offers take 3 s - and a new
+	// environment is requested from the restarted core at once, so the answers arrive while its deployment is in progress
+	CreateDuringReconcile bool
+	SlowKillCalls         bool // restart: the master takes 100 ms to answer each KILL call (many survivors: the answers outrun the kills)
 }
 
 var hostNames = []string{"hosta", "hostb", "hostc"}
@@ -81,6 +85,7 @@ func run(c Case) (res vh.Result) {
 	}
 	slowKill := false
 	refuseKills := false
+	slowKillCalls := false
 	refused := map[string]bool{}
 	w.Master.OnKill = func(t *simworld.SimTask) simworld.KillPlan {
 		mu.Lock()
@@ -88,7 +93,12 @@ func run(c Case) (res vh.Result) {
 		if slowKill {
 			return simworld.KillPlan{Delay: 3 * time.Second}
 		}
-		if refuseKills && !refused[t.ID] {
+		if slowKillCalls {
+			return simworld.KillPlan{CallDelay: 100 * time.Millisecond}
+		}
+		// (every refusal costs a resubscription with a doubling backoff: 1, 2, 4 s ...; at most three tasks are refused so that the
+		// 20 s allowed below stay far from what the backoff alone needs)
+		if refuseKills && !refused[t.ID] && len(refused) < 3 {
 			refused[t.ID] = true
 			return simworld.KillPlan{RefuseHTTP: 503}
 		}
@@ -176,6 +186,7 @@ func run(c Case) (res vh.Result) {
 		mu.Lock()
 		slowKill, silentLaunch = false, false
 		refuseKills = c.RefuseFirstKill
+		slowKillCalls = c.SlowKillCalls
 		mu.Unlock()
 		alive := map[string]bool{}
 		for _, t := range w.Master.Tasks() {
@@ -185,8 +196,26 @@ func run(c Case) (res vh.Result) {
 		}
 		steps = append(steps, fmt.Sprintf("core killed at %s; %d tasks alive at the master", c.Point, len(alive)))
 		mark := len(w.Master.Calls())
+		taskMark := len(w.Master.Tasks())
+		if c.CreateDuringReconcile {
+			w.Master.ReconcileDelay = 1500 * time.Millisecond
+			w.Master.OfferDelay = 3 * time.Second
+			res.Classes = append(res.Classes, "creation-in-progress-while-reconciling")
+		}
 		if err := w.StartCore(); err != nil {
 			return fail("restart-failed", "the core did not come back: %v", err)
+		}
+		type created struct {
+			id  string
+			err error
+		}
+		var newEnv chan created
+		if c.CreateDuringReconcile {
+			newEnv = make(chan created, 1)
+			go func() {
+				e, err := w.NewEnv(mkwf(7), nil, 60*time.Second)
+				newEnv <- created{e.GetId(), err}
+			}()
 		}
 		// same framework identity
 		var sub *simworld.CallRec
@@ -232,6 +261,36 @@ func run(c Case) (res vh.Result) {
 				return fail("orphan-survives-restart:"+c.Point, "20 s after the restart %d task(s) of the previous life are alive at the master and were never asked to terminate: %v", len(missing), st)
 			}
 			time.Sleep(50 * time.Millisecond)
+		}
+		if newEnv != nil {
+			// the environment requested from the new life is the only thing it knows, and none of the old tasks is part of it
+			var cr created
+			select {
+			case cr = <-newEnv:
+			case <-time.After(90 * time.Second):
+				return fail("request-hangs", "the environment requested right after the restart was not answered within 90 s")
+			}
+			steps = append(steps, fmt.Sprintf("environment requested right after the restart: id=%s err=%v", cr.id, cr.err))
+			if cr.err != nil {
+				res.Inconclusive = "the creation requested right after the restart failed: " + cr.err.Error()
+				return
+			}
+			envs, _ := w.Envs()
+			if len(envs) != 1 || envs[0].GetId() != cr.id {
+				return fail("restarted-core-has-environments", "the restarted core lists %d environments, expected only the one created after the restart", len(envs))
+			}
+			fresh := map[string]bool{}
+			for _, t := range w.Master.Tasks()[taskMark:] {
+				fresh[t.ID] = true
+			}
+			ts, _ := w.TasksAPI()
+			for _, t := range ts {
+				if !fresh[t.TaskId] {
+					return fail("restarted-core-has-tasks", "the restarted core lists task %s, which was not launched in its life", t.TaskId)
+				}
+			}
+			w.Destroy(cr.id, true, true, false, 60*time.Second)
+			return
 		}
 		envs, _ := w.Envs()
 		if len(envs) != 0 {
@@ -391,6 +450,10 @@ func gen(t *rapid.T) Case {
 	if c.Action == "restart" {
 		c.RefuseFirstKill = rapid.IntRange(0, 3).Draw(t, "refuseFirstKill") == 0
 		c.Point = rapid.SampledFrom([]string{"launching", "deployed", "mid-transition", "running", "teardown"}).Draw(t, "point")
+		c.CreateDuringReconcile = !c.RefuseFirstKill && rapid.IntRange(0, 2).Draw(t, "createDuringReconcile") == 0
+		if !c.RefuseFirstKill && c.Point != "launching" && rapid.IntRange(0, 5).Draw(t, "manySurvivors") == 0 {
+			c.NTasks, c.SlowKillCalls = rapid.IntRange(9, 14).Draw(t, "manyTasks"), true
+		}
 	} else {
 		c.Point = rapid.SampledFrom([]string{"configured", "running", "mid-transition"}).Draw(t, "point")
 		c.Drops = rapid.IntRange(1, 3).Draw(t, "drops")
@@ -413,6 +476,8 @@ func TestFixed(t *testing.T) {
 		}
 		vh.Fixed(t, prop, "reconnect-bare-answers", Case{NTasks: 2, Envs: 2, Action: "reconnect", Point: "configured", Drops: 1, Bare: true}, vh.Confirmed(run))
 		vh.Fixed(t, prop, "restart-first-kill-refused", Case{NTasks: 2, Envs: 1, Action: "restart", Point: "deployed", RefuseFirstKill: true}, vh.Confirmed(run))
+		vh.Fixed(t, prop, "restart-while-a-new-environment-is-being-deployed", Case{NTasks: 3, Envs: 1, Action: "restart", Point: "running", CreateDuringReconcile: true}, vh.Confirmed(run))
+		vh.Fixed(t, prop, "restart-with-24-survivors-and-a-slow-master", Case{NTasks: 12, Envs: 2, Action: "restart", Point: "deployed", SlowKillCalls: true}, vh.Confirmed(run))
 		vh.Fixed(t, prop, "restart-bare-answers", Case{NTasks: 2, Envs: 1, Action: "restart", Point: "running", Bare: true}, vh.Confirmed(run))
 	}
 }
